@@ -13,7 +13,7 @@
      one_sheet out f g : out = Ok [cone; plane]; -s is {f < 0 and g > 0},
        +s is {f > 0 or g < 0}, and the cone's zero set is that of f. *)
 From Coq Require Import List NArith ZArith Bool String Ascii Reals Lra.
-From T4V Require Import Base.Str Base.Scalar C02.Vec C02.Spec C02.Model C02.Proofs C02.ProofsCards C02.ProofsP3 C02.ProofsAll C02.ProofsAxis C02.ProofsNum C02.ProofsIds C02.ProofsBand C02.ProofsCounts C02.Text C02.ProofsText C02.LinkC04.
+From T4V Require Import Base.Str Base.Scalar C02.Vec C02.Spec C02.Model C02.Proofs C02.ProofsCards C02.ProofsP3 C02.ProofsAll C02.ProofsAxis C02.ProofsNum C02.ProofsIds C02.ProofsBand C02.ProofsCounts C02.Text C02.ProofsText C02.LinkC04 C02.LinkC03.
 Import ListNotations.
 Open Scope R_scope.
 
@@ -26,7 +26,6 @@ Theorem C02_locus_sense_meaning : forall (out : res collR) (f : pointR -> R),
               (exists ty prm g, c = [((ty, prm), 1%Z)] /\ f_T4 RS ty prm = Some g /\
                                 (g p = 0 <-> f p = 0)).
 Proof. exact locus_sense_regions. Qed.
-Print Assumptions C02_locus_sense_meaning.
 
 (* the one statement for all mnemonics: whenever the Spec reads the card as the
    surface ms (Spec.mcnp_surface: equation m_f, kept sheet m_sheet) and the
@@ -44,7 +43,6 @@ Theorem C02_every_card_locus_sense : forall (mn : mnem) (prm : list R) (ms : msu
     (exists s rest h, c = (s, 1%Z) :: rest /\ f_T4 RS (fst s) (snd s) = Some h /\
                       (h p = 0 <-> m_f ms p = 0)).
 Proof. exact every_card. Qed.
-Print Assumptions C02_every_card_locus_sense.
 
 (* spheres: any centre, any radius *)
 Theorem C02_SO_S_SX_SY_SZ_locus_sense :
@@ -61,7 +59,6 @@ Proof.
   - exact sy_locus_sense.
   - exact sz_locus_sense.
 Qed.
-Print Assumptions C02_SO_S_SX_SY_SZ_locus_sense.
 
 (* planes: PX PY PZ, and P A B C D with a non-zero normal (k = 1/|n|) *)
 Theorem C02_PX_PY_PZ_P_locus_sense :
@@ -76,7 +73,6 @@ Proof.
   - exact pz_locus_sense.
   - exact p_locus_sense.
 Qed.
-Print Assumptions C02_PX_PY_PZ_P_locus_sense.
 
 (* cylinders on and parallel to the axes: which two coordinates each card keeps *)
 Theorem C02_CX_CY_CZ_C_X_C_Y_C_Z_locus_sense :
@@ -95,7 +91,6 @@ Proof.
   - exact c_y_locus_sense.
   - exact c_z_locus_sense.
 Qed.
-Print Assumptions C02_CX_CY_CZ_C_X_C_Y_C_Z_locus_sense.
 
 (* two-sheet cones (no selector, or selector 0): tan(theta deg)^2 = t^2 through tan(atan t) = t *)
 Theorem C02_KX_KY_KZ_K_X_K_Y_K_Z_locus_sense :
@@ -126,7 +121,6 @@ Proof.
   - exact k_y_sheet0_locus_sense.
   - exact k_z_sheet0_locus_sense.
 Qed.
-Print Assumptions C02_KX_KY_KZ_K_X_K_Y_K_Z_locus_sense.
 
 (* one-sheet cones, selector +1 / -1: -s = inside the double cone AND on the kept side of the apex plane, +s = the complement *)
 Theorem C02_K_sheet_locus_sense :
@@ -145,7 +139,6 @@ Proof.
   - exact k_y_sheet_locus_sense.
   - exact k_z_sheet_locus_sense.
 Qed.
-Print Assumptions C02_K_sheet_locus_sense.
 
 (* GQ passes through; SQ expands to the same polynomial (k = 1, no guard on G) *)
 Theorem C02_GQ_SQ_locus_sense :
@@ -156,7 +149,6 @@ Proof.
   - exact gq_locus_sense.
   - exact sq_locus_sense.
 Qed.
-Print Assumptions C02_GQ_SQ_locus_sense.
 
 (* tori, six entries and the five-entry circular form (k = 1: TRIPOLI-4 has MCNP's parameters; signs equal pointwise, radical kept on both sides) *)
 Theorem C02_TX_TY_TZ_locus_sense :
@@ -175,7 +167,6 @@ Proof.
   - exact ty5_locus_sense.
   - exact tz5_locus_sense.
 Qed.
-Print Assumptions C02_TX_TY_TZ_locus_sense.
 
 (* X/Y/Z: one pair or equal abscissae = plane, equal radii = cylinder *)
 Theorem C02_X_Y_Z_plane_cylinder_locus_sense :
@@ -200,7 +191,6 @@ Proof.
   - exact y_cyl_locus_sense.
   - exact z_cyl_locus_sense.
 Qed.
-Print Assumptions C02_X_Y_Z_plane_cylinder_locus_sense.
 
 (* X/Y/Z cone form: the cone through the two circles, the sheet containing both points (either point may be the apex) *)
 Theorem C02_X_Y_Z_cone_locus_sense :
@@ -213,7 +203,6 @@ Proof.
   - exact y_cone_locus_sense.
   - exact z_cone_locus_sense.
 Qed.
-Print Assumptions C02_X_Y_Z_cone_locus_sense.
 
 (* three-point planes: outside the epsilon bands of planeParamsFromPoints
    (p3_guard: |n|^2 > 1e-10 and each of D, C, B, A is 0 or > 1e-14 |n| in
@@ -225,7 +214,6 @@ Theorem C02_P_three_points_locus_sense : forall x1 y1 z1 x2 y2 z2 x3 y3 z3 : R,
   exists A B C D, p3_plane RS p1 p2 p3 = Some (A, B, C, D) /\
     locus_sense (convert_card RS M_P [x1; y1; z1; x2; y2; z2; x3; y3; z3]) (fM_p RS A B C D).
 Proof. exact p3_locus_sense. Qed.
-Print Assumptions C02_P_three_points_locus_sense.
 
 (* without the band guard: whenever the nine-entry card is converted at all,
    the emitted plane has the equation k (n . q - n . p1) with k <> 0 and
@@ -240,7 +228,6 @@ Theorem C02_P_three_points_locus_partial : forall x1 y1 z1 x2 y2 z2 x3 y3 z3 c,
   exists ty prm g k, c = [((ty, prm), 1%Z)] /\ f_T4 RS ty prm = Some g /\ k <> 0 /\
     forall q, g q = k * fM_p RS (vx n) (vy n) (vz n) (scal RS n p1) q.
 Proof. exact p3_locus_any. Qed.
-Print Assumptions C02_P_three_points_locus_partial.
 
 (* planeParamsFromPoints after the cross product: 1/|n| times the plane kept
    by the manual's four rules *)
@@ -252,7 +239,6 @@ Theorem C02_orient_plane_ok : forall n p1 : vec (T:=R),
     orient_plane RS n p1 =
       Ok (scale4 (1 / mag RS n) (if keep then (A, B, C, D) else (- A, - B, - C, - D))).
 Proof. exact orient_plane_ok. Qed.
-Print Assumptions C02_orient_plane_ok.
 
 (* ---------- SQ and GQ agree ---------- *)
 (* an SQ card and the GQ card with the expanded coefficients are converted to
@@ -266,7 +252,6 @@ Theorem C02_sq_gq_consistent : forall A B C D E F G x0 y0 z0 : R,
                   (A * (x0 * x0) + B * (y0 * y0) + C * (z0 * z0) - 2 * (D * x0 + E * y0 + F * z0) + G) p
             = fM_sq RS A B C D E F G x0 y0 z0 p.
 Proof. exact sq_gq_consistent. Qed.
-Print Assumptions C02_sq_gq_consistent.
 
 (* ---------- the conversion functions for ANY frame (all branches) ---------- *)
 (* surf_is s f: the TRIPOLI-4 equation of s is k * f for some k > 0.
@@ -295,7 +280,6 @@ Proof.
   - exact cone_aux_plane_ok.
   - exact tan_deg_atan.
 Qed.
-Print Assumptions C02_convert_any_axis.
 
 (* the table entries 'c' and 'k' (general axis; not MCNP cards): same statement
    with the cylinder / cone about the axis through (x,y,z) with direction (A,B,C) *)
@@ -316,7 +300,6 @@ Proof.
   - exact k_any_axis.
   - exact k_any_axis_sheet.
 Qed.
-Print Assumptions C02_C_K_any_axis_locus_sense.
 
 (* outside the guards the modelled code raises instead of emitting a wrong
    surface: zero normal (ZeroDivisionError), negative t^2 (TypeError of atan
@@ -338,7 +321,6 @@ Proof.
   - exact k_negative_t2_raises.
   - exact p3_collinear_raises.
 Qed.
-Print Assumptions C02_inadmissible_cards_raise.
 
 (* ---------- three-point planes INSIDE the thresholds ---------- *)
 (* For EVERY nine-entry P card the code accepts (|n|^2 > 1e-10, no band guard):
@@ -357,7 +339,6 @@ Theorem C02_P_three_points_thresholded : forall x1 y1 z1 x2 y2 z2 x3 y3 z3 : R,
       (if keep then fM_p RS (vx n) (vy n) (vz n) (scal RS n p1)
        else fM_p RS (- vx n) (- vy n) (- vz n) (- scal RS n p1)).
 Proof. exact p3_sense_thresholded. Qed.
-Print Assumptions C02_P_three_points_thresholded.
 
 (* the thresholded rule IS the manual's rule whenever D, C, B, A are each zero
    or clear of the threshold (p3_guard); and it is NOT on the plane z = -t,
@@ -373,7 +354,6 @@ Theorem C02_P_three_points_band_deviation :
      locus_sense (convert_card RS M_P [0; 0; - t; 0; 1; - t; 1; 0; - t])
                  (fM_p RS (- 0) (- 0) (- - (1)) (- t))).
 Proof. split; [exact code_keep_manual | exact p3_band_deviation]. Qed.
-Print Assumptions C02_P_three_points_band_deviation.
 
 (* ---------- cards outside MCNP's admissibility: what the code does ---------- *)
 (* for every scalar instance: surplus entries are ignored by SO PX PY PZ CX CY
@@ -431,7 +411,6 @@ Proof.
   split; [intros; apply surplus_drops_selector|]. split; [apply gq_any_count|].
   split; [apply short_raises|]. apply exact_counts.
 Qed.
-Print Assumptions C02_parameter_count_behaviour.
 
 (* sheet selectors with 2 <= |int(s)| <= 8: the auxiliary plane gets the side
    -int(s) of that magnitude, and number_items then writes the literal
@@ -449,7 +428,6 @@ Proof.
   - exact kz_large_selector.
   - exact large_side_names_another_id.
 Qed.
-Print Assumptions C02_large_selector.
 
 (* ---------- numbering of the emitted surfaces ---------- *)
 (* CollectionDict.number_items on a dictionary with distinct positive keys and
@@ -472,7 +450,6 @@ Proof.
   - intros A. exact (@number_loop_total A).
   - intros A. exact (@join_single A).
 Qed.
-Print Assumptions C02_number_items_spec.
 
 (* from the collection to the written ids: after number_items, for every MCNP
    surface of the dictionary the literals written for -s (the opposites of the
@@ -492,7 +469,6 @@ Theorem C02_numbered_ids_select_regions :
              forall p, (neg_ids num (snd km) p <-> neg_coll (snd kv) p) /\
                        (pos_ids num (snd km) p <-> pos_coll (snd kv) p)) dic mat.
 Proof. exact numbered_ids_select_regions. Qed.
-Print Assumptions C02_numbered_ids_select_regions.
 
 (* ---------- from the card TEXT (C02/Text.v: Card.content, surfacecard.split,
    to_float, get_surfaces, string_to_enum; tied by execution) ---------- *)
@@ -511,7 +487,6 @@ Theorem C02_text_every_card_locus_sense :
     (exists s rest h, c = (s, 1%Z) :: rest /\ f_T4 RS (fst s) (snd s) = Some h /\
                       (h p = 0 <-> m_f ms p = 0)).
 Proof. exact text_every_card. Qed.
-Print Assumptions C02_text_every_card_locus_sense.
 
 (* what the scanner reads: a card rendered as blanks, flags (plus, star), the digits
    of its number, blanks, the mnemonic (letters, /; any case), blanks, the rest
@@ -526,7 +501,6 @@ Theorem C02_split_surface_render : forall ws0 flags digs ws1 ty ws2 rest : strin
   split_surface (ws0 ++ flags ++ digs ++ ws1 ++ ty ++ ws2 ++ rest)%string =
   Some ((flags ++ digs)%string, ""%string, ty, rest).
 Proof. exact split_surface_render. Qed.
-Print Assumptions C02_split_surface_render.
 
 (* what to_float reads: digits [. digits] [exponent] denotes mantissa * 10^(e -
    number of fraction digits), for the exponent spellings e/E (float()), d/D and
@@ -555,7 +529,6 @@ Proof.
   split; [exact scan_real_point|]. split; [exact scan_real_int|].
   split; [exact scan_real_sign | exact num_value_real].
 Qed.
-Print Assumptions C02_to_float_denotes.
 
 (* ---------- LINK with C04: a surface card WITH a TR number ---------- *)
 (* C02/LinkC04.v hands the SurfaceMCNP built by C02's to_surface_mcnp, in C04's
@@ -581,7 +554,6 @@ Theorem C02_text_every_card_locus_sense_linked :
       (S4.coll_pos coll (S4.to_main o b p') <->
          0 < m_f ms (pt3 p') \/ match m_sheet ms with None => False | Some g => g (pt3 p') < 0 end).
 Proof. exact text_every_card_linked. Qed.
-Print Assumptions C02_text_every_card_locus_sense_linked.
 
 (* the same for EVERY mnemonic of the property except the tori: also the
    nine-entry P (under p3_guard) and the point-defined X / Y / Z in all forms *)
@@ -599,7 +571,6 @@ Theorem C02_text_every_card_all_mnemonics_linked :
       (S4.coll_pos coll (S4.to_main o b p') <->
          0 < m_f ms (pt3 p') \/ match m_sheet ms with None => False | Some g => g (pt3 p') < 0 end).
 Proof. exact text_every_card_linked_all. Qed.
-Print Assumptions C02_text_every_card_all_mnemonics_linked.
 
 (* tori with a TR number, through C04's torus law: when the moved axis is
    exactly a coordinate axis or clearly not one (C04's torus_axis_ok), ONE torus
@@ -616,7 +587,6 @@ Theorem C02_torus_tr_linked : forall (x0 y0 z0 A B C : R) (o : S4.R3) (b : V4.M3
      exists t, card_tr_convert (C4.tr12 o b) M_TZ [x0; y0; z0; A; B; C] = M4.Ok [(t, 1%Z)] /\
        forall p', S4.t4val t (S4.to_main o b p') = fM_tz RS x0 y0 z0 A B C (pt3 p')).
 Proof. exact torus_tr_linked. Qed.
-Print Assumptions C02_torus_tr_linked.
 
 (* the frame form that C04 starts from has the sense of the card (the bridge
    used above; link_wf = what C04's laws ask of it) *)
@@ -625,7 +595,6 @@ Theorem C02_frame_form_sense_linked : forall (mn : mnem) (prm : list R) (ms : ms
   exists c s, to_surface_mcnp RS mn prm = Ok c /\ to_ms c = Some s /\ link_wf s /\
     forall P, (S4.mneg s P <-> neg_sense ms (pt3 P)) /\ (S4.mpos s P <-> pos_sense ms (pt3 P)).
 Proof. exact frame_sense. Qed.
-Print Assumptions C02_frame_form_sense_linked.
 
 (* ---------- Spec sanity (the Spec says what the manual says) ---------- *)
 Theorem C02_spec_sanity :
@@ -647,7 +616,6 @@ Proof.
     + exact (p3_plane_orientation p1 p2 p3 A B C D H).
   - exact xyz_spec_contains_points.
 Qed.
-Print Assumptions C02_spec_sanity.
 
 (* Spec.sense_value (the number compared with the harness's Python reference by
    the tie spec-fM) has the sign of the MCNP sense used above *)
@@ -657,7 +625,81 @@ Theorem C02_sense_value_sign : forall (ms : msurf (T:=R)) (p : pointR),
   (0 < sense_value RS ms p <->
      0 < m_f ms p \/ match m_sheet ms with None => False | Some g => g p < 0 end).
 Proof. exact sense_value_sign. Qed.
-Print Assumptions C02_sense_value_sign.
+
+
+(* ---------- LINK with C03 and with the TEXT of the TR card (C02/LinkC03.v) ---------- *)
+(* the linked statement with the transformation READ FROM THE TR CARD: trs
+   holds under n what C04's model of the converter returns for the TR card
+   (C03's card_gives packages C04_tr_card_12, _star_12, _3 and the abbreviated
+   matrices): no hypothesis on (O, B) other than that the card gives them *)
+Theorem C02_text_every_card_tr_card_linked :
+  forall (txt bc : string) (name : N) (tr ty : string) (prm : list R) (mn : mnem)
+         (ms : msurf (T:=R)) (n : Z) (l : list R) (o : S4.R3) (b : V4.M3 R) (trs : list (Z * list R)),
+  parse_surface_card RS txt = Ok (bc, name, tr, ty, prm) ->
+  tr_number tr = Some n -> M4.lookup n trs = M4.Ok l -> L3.card_gives l o b ->
+  classify ty = TyMnem mn -> linkable_all mn ->
+  mcnp_surface RS mn prm = Some ms -> admissible mn prm ->
+  exists coll, convert_text_tr trs txt = M4.Ok coll /\
+    forall p', (S4.coll_neg coll (S4.to_main o b p') <-> neg_sense ms (pt3 p')) /\
+               (S4.coll_pos coll (S4.to_main o b p') <-> pos_sense ms (pt3 p')).
+Proof. exact text_every_card_tr_card_linked. Qed.
+
+(* macrobody card texts: C02's scanner, then C03's body function and facet
+   conversion.  Without a TR number the written surfaces are MCNP's facets fs
+   (whenever C03's body function yields them: C03_<body>_facet_k under the
+   body's admissibility); with a TR number whose card gives (O, B) they are
+   the facets read in the auxiliary frame B (q - O) *)
+Theorem C02_text_body_linked :
+  (forall txt bc name ty prm bd fs,
+     parse_surface_card RS txt = Ok (bc, name, ""%string, ty, prm) ->
+     body_of_type ty = Some bd ->
+     (exists es, B3.body_parts RS bd (fst (body_args bd (card_tokens txt) prm))
+                               (snd (body_args bd (card_tokens txt) prm)) = E3.Ok es /\
+                 Forall Q3.entry_wf es /\ Forall2 P3.same_facet es fs) ->
+     exists ts, convert_text_body [] txt = E3.Ok ts /\
+                Forall2 (Q3.same_t4_facet (fun p => p)) ts fs) /\
+  (forall txt bc name tr ty prm bd fs n l o b trs,
+     parse_surface_card RS txt = Ok (bc, name, tr, ty, prm) ->
+     is_empty tr = false -> tr_number tr = Some n ->
+     M4.lookup n trs = M4.Ok l -> L3.card_gives l o b ->
+     body_of_type ty = Some bd ->
+     (exists es, B3.body_parts RS bd (fst (body_args bd (card_tokens txt) prm))
+                               (snd (body_args bd (card_tokens txt) prm)) = E3.Ok es /\
+                 Forall Q3.entry_wf es /\ Forall2 P3.same_facet es fs) ->
+     exists ts, convert_text_body trs txt = E3.Ok ts /\
+                Forall2 (Q3.same_t4_facet (LW3.aux_c04 o b)) ts fs) /\
+  (* the adapter: the pipeline IS C03's body_t4 on the card's parameters, so
+     every C03_<body>_written theorem applies to the card text *)
+  (forall txt bc name ty prm bd,
+     parse_surface_card RS txt = Ok (bc, name, ""%string, ty, prm) -> body_of_type ty = Some bd ->
+     convert_text_body [] txt =
+     K3.body_t4 RS None bd (fst (body_args bd (card_tokens txt) prm))
+                (snd (body_args bd (card_tokens txt) prm))).
+Proof.
+  split; [exact text_body_linked|]. split; [exact text_body_tr_linked | exact text_body_is_body_t4].
+Qed.
+
+(* RPP, SPH, RCC from the card text, as instances *)
+Theorem C02_text_rpp_sph_rcc_linked :
+  ltac:(let t := type of text_rpp_sph_rcc_linked in exact t).
+Proof. exact text_rpp_sph_rcc_linked. Qed.
+
+(* THE CAPSTONE INCLUDING BODIES: every surface card text that get_surfaces
+   reads -- elementary mnemonic without / with a TR number, macrobody without /
+   with a TR number -- in one statement (tori with a TR number:
+   C02_torus_tr_linked) *)
+Theorem C02_text_every_card_incl_bodies_linked :
+  ltac:(let t := type of (conj C02_text_every_card_locus_sense
+                         (conj C02_text_every_card_tr_card_linked C02_text_body_linked)) in exact t).
+Proof.
+  exact (conj C02_text_every_card_locus_sense
+        (conj C02_text_every_card_tr_card_linked C02_text_body_linked)).
+Qed.
+
+Example C02_example_body_text :
+  exists ts, convert_text_body [] "5 RPP -1 1 -2 2 -3 3"%string = E3.Ok ts /\
+    Forall2 (Q3.same_t4_facet (fun p => p)) ts (P3.rpp_facets (-1) 1 (-2) 2 (-3) 3).
+Proof. exact body_text_example. Qed.
 
 (* ---------- non-vacuity ---------- *)
 (* the guard of C02_P_three_points_locus_sense holds for the plane z = 1 through
@@ -717,3 +759,36 @@ Example C02_example_number_items :
   number_items [(1%Z, [(true, 1%Z); (false, (-1)%Z)]); (9%Z, [(true, 1%Z)])] =
   Ok ([(1%Z, true); (10%Z, false); (9%Z, true)], [(1%Z, [1%Z; (-10)%Z]); (9%Z, [9%Z])]).
 Proof. vm_compute. reflexivity. Qed.
+
+(* ---------- families: the audited bundles (each is the conjunction of the
+   theorems named in it; Print Assumptions of a conjunction covers them all) ---------- *)
+Theorem C02_family_cards :
+  ltac:(let t := type of (conj C02_locus_sense_meaning (conj C02_every_card_locus_sense (conj C02_SO_S_SX_SY_SZ_locus_sense (conj C02_PX_PY_PZ_P_locus_sense (conj C02_CX_CY_CZ_C_X_C_Y_C_Z_locus_sense (conj C02_KX_KY_KZ_K_X_K_Y_K_Z_locus_sense (conj C02_K_sheet_locus_sense (conj C02_GQ_SQ_locus_sense (conj C02_TX_TY_TZ_locus_sense (conj C02_X_Y_Z_plane_cylinder_locus_sense (conj C02_X_Y_Z_cone_locus_sense (conj C02_sq_gq_consistent (conj C02_convert_any_axis (conj C02_C_K_any_axis_locus_sense C02_inadmissible_cards_raise)))))))))))))) in exact t).
+Proof. exact (conj C02_locus_sense_meaning (conj C02_every_card_locus_sense (conj C02_SO_S_SX_SY_SZ_locus_sense (conj C02_PX_PY_PZ_P_locus_sense (conj C02_CX_CY_CZ_C_X_C_Y_C_Z_locus_sense (conj C02_KX_KY_KZ_K_X_K_Y_K_Z_locus_sense (conj C02_K_sheet_locus_sense (conj C02_GQ_SQ_locus_sense (conj C02_TX_TY_TZ_locus_sense (conj C02_X_Y_Z_plane_cylinder_locus_sense (conj C02_X_Y_Z_cone_locus_sense (conj C02_sq_gq_consistent (conj C02_convert_any_axis (conj C02_C_K_any_axis_locus_sense C02_inadmissible_cards_raise)))))))))))))). Qed.
+Print Assumptions C02_family_cards.
+
+Theorem C02_family_three_point_planes :
+  ltac:(let t := type of (conj C02_P_three_points_locus_sense (conj C02_P_three_points_locus_partial (conj C02_orient_plane_ok (conj C02_P_three_points_thresholded C02_P_three_points_band_deviation)))) in exact t).
+Proof. exact (conj C02_P_three_points_locus_sense (conj C02_P_three_points_locus_partial (conj C02_orient_plane_ok (conj C02_P_three_points_thresholded C02_P_three_points_band_deviation)))). Qed.
+Print Assumptions C02_family_three_point_planes.
+
+Theorem C02_family_counts_numbering :
+  ltac:(let t := type of (conj C02_parameter_count_behaviour (conj C02_large_selector (conj C02_number_items_spec C02_numbered_ids_select_regions))) in exact t).
+Proof. exact (conj C02_parameter_count_behaviour (conj C02_large_selector (conj C02_number_items_spec C02_numbered_ids_select_regions))). Qed.
+Print Assumptions C02_family_counts_numbering.
+
+Theorem C02_family_text :
+  ltac:(let t := type of (conj C02_text_every_card_locus_sense (conj C02_split_surface_render C02_to_float_denotes)) in exact t).
+Proof. exact (conj C02_text_every_card_locus_sense (conj C02_split_surface_render C02_to_float_denotes)). Qed.
+Print Assumptions C02_family_text.
+
+Theorem C02_family_spec :
+  ltac:(let t := type of (conj C02_spec_sanity C02_sense_value_sign) in exact t).
+Proof. exact (conj C02_spec_sanity C02_sense_value_sign). Qed.
+Print Assumptions C02_family_spec.
+
+Theorem C02_family_linked :
+  ltac:(let t := type of (conj C02_text_every_card_locus_sense_linked (conj C02_text_every_card_all_mnemonics_linked (conj C02_torus_tr_linked (conj C02_frame_form_sense_linked (conj C02_text_every_card_tr_card_linked (conj C02_text_body_linked (conj C02_text_rpp_sph_rcc_linked C02_text_every_card_incl_bodies_linked))))))) in exact t).
+Proof. exact (conj C02_text_every_card_locus_sense_linked (conj C02_text_every_card_all_mnemonics_linked (conj C02_torus_tr_linked (conj C02_frame_form_sense_linked (conj C02_text_every_card_tr_card_linked (conj C02_text_body_linked (conj C02_text_rpp_sph_rcc_linked C02_text_every_card_incl_bodies_linked))))))). Qed.
+Print Assumptions C02_family_linked.
+
